@@ -139,7 +139,7 @@ Definition lex_spread (r : str) : lout :=
 Inductive sstate :=
 | SStr                     (* State::StringLiteral *)
 | SBack                    (* State::StringLiteralBackslash *)
-| SUni (remaining v : N).  (* State::StringLiteralEscapedUnicode(remaining); v = value of the digits read *)
+| SUni (remaining : nat) (v : N).  (* State::StringLiteralEscapedUnicode(remaining); v = value of the digits read *)
 
 Definition scons (c : N) (e : bool) (x : str * str * bool) : str * str * bool :=
   let '(d, rest, e') := x in (c :: d, rest, e || e').
@@ -164,8 +164,10 @@ Fixpoint scan_str (st : sstate) (s : str) : str * str * bool :=
           else if negb (is_hex c) then scons c true (scan_str SStr r)
           else
             let v' := 16 * v + hexval c in
-            if n <=? 1 then scons c (is_surrogate v') (scan_str SStr r)
-            else scons c false (scan_str (SUni (n - 1) v') r)
+            match n with
+            | S (S m) => scons c false (scan_str (SUni (S m) v') r)      (* remaining > 1 *)
+            | _ => scons c (is_surrogate v') (scan_str SStr r)           (* remaining <= 1: the 4th digit *)
+            end
       end
   end.
 
